@@ -14,7 +14,81 @@ From ErgV Require Import CoreErg.Syntax CoreErg.Sem Typing.Types Typing.Check Ty
 Import ListNotations.
 Open Scope Z_scope.
 
-Definition Known_C02 (p : prog) : bool := typecheck false p && negb (typecheck true p).
+(** K_pow: accepted with the declared table, rejected once `**` is restricted to non-negative operands *)
+Definition known_pow (p : prog) : bool := typecheck false p && negb (typecheck true p).
+
+(** K_ifarith (known_enum_arith of known/C01.json; a deviation of erg's inference from the reference rules, so it is
+    described on the syntax): an arithmetic operator whose left (or only) operand is *if-valued* — an if-expression, a
+    variable bound to one, a call of a function whose result expression is one, or an element taken from a list literal
+    that contains one.  erg then types the operation by the operand's type (`if(a > b, (do: a), (do: b)) - 300 : Nat`). *)
+Fixpoint mem_z (x : Z) (l : list Z) : bool :=
+  match l with [] => false | y :: r => (x =? y) || mem_z x r end.
+
+Definition ifv0 (S : list Z) (e : tm) : bool :=
+  match e with
+  | XIf _ _ _ => true
+  | XVar x => mem_z x S
+  | XCall f _ => mem_z f S
+  | _ => false
+  end.
+
+Definition ifv (S : list Z) (e : tm) : bool :=
+  match e with
+  | XIndex (XList es) _ => existsb (ifv0 S) es
+  | _ => ifv0 S e
+  end.
+
+Fixpoint ifarith_tm (S : list Z) (e : tm) {struct e} : bool :=
+  let any := fix any (es : list tm) : bool :=
+    match es with [] => false | x :: r => ifarith_tm S x || any r end in
+  match e with
+  | XLit _ | XVar _ => false
+  | XUn op a => (match op with UNot => false | _ => ifv S a end) || ifarith_tm S a
+  | XBin _ a b => ifv S a || ifarith_tm S a || ifarith_tm S b
+  | XCmp _ a b | XLogic _ a b => ifarith_tm S a || ifarith_tm S b
+  | XList es => any es
+  | XIndex a i => ifarith_tm S a || ifarith_tm S i
+  | XIf c a b => ifarith_tm S c || ifarith_tm S a || ifarith_tm S b
+  | XCall _ args => any args
+  | XMeth _ r args => ifarith_tm S r || any args
+  end.
+
+Fixpoint ifarith_locals (S : list Z) (ls : list (Z * tm)) : bool * list Z :=
+  match ls with
+  | [] => (false, S)
+  | (x, e) :: r =>
+    let S' := if ifv S e then x :: S else S in
+    let res := ifarith_locals S' r in
+    (ifarith_tm S e || fst res, snd res)
+  end.
+
+Fixpoint ifarith_st (S : list Z) (s : st) {struct s} : bool * list Z :=
+  let blk := fix blk (S : list Z) (ss : list st) : bool :=
+    match ss with
+    | [] => false
+    | x :: r => let res := ifarith_st S x in fst res || blk (snd res) r
+    end in
+  match s with
+  | TDef x _ e => (ifarith_tm S e, if ifv S e then x :: S else S)
+  | TPrint es => (existsb (ifarith_tm S) es, S)
+  | TAssert e => (ifarith_tm S e, S)
+  | TFun f _ ps _ locals res =>
+    let d := existsb (fun p => match snd p with Some e => ifarith_tm S e | None => false end) ps in
+    let l := ifarith_locals S locals in
+    (d || fst l || ifarith_tm (snd l) res, if ifv (snd l) res then f :: S else S)
+  | TIf c th el => (ifarith_tm S c || blk S th || blk S el, S)
+  | TFor _ it body => (ifarith_tm S it || blk S body, S)
+  end.
+
+Fixpoint ifarith_block (S : list Z) (ss : list st) : bool :=
+  match ss with
+  | [] => false
+  | x :: r => let res := ifarith_st S x in fst res || ifarith_block (snd res) r
+  end.
+
+Definition known_ifarith (p : prog) : bool := ifarith_block [] p.
+
+Definition Known_C02 (p : prog) : bool := known_pow p || known_ifarith p.
 
 Definition judge_c05 (accepted executed : bool) : bool := negb accepted && negb executed.
 
